@@ -92,6 +92,18 @@ CHECKS = {
             "Post filters are square per receiver; the user count is not changed while a path loss is in force; randomness of the noise itself is not checked, only that exactly the reported noise was added.",
             "reference-model lock-step over generated operation histories (dense and sparse read patterns)",
             "DESIGN.md §5 C08"),
+    "C10": ("exploration",
+            "Every solver (closed form, alternating minimisation, min leakage, max SINR, MMSE) is run on generated channels (equal and "
+            "unequal antennas, 1..min-1 streams with Ns >= 2 forced for min-leakage, scalar/vector powers, all initialisation modes, "
+            "1-60 iterations) and then driven through 1-8 public setter operations (P=, set_precoders(F|full_F), "
+            "set_receive_filters(W|W_H), randomizeF, solve again); after the solve and after EVERY operation the relations among the "
+            "public properties are evaluated: unit-norm precoders, full_F = sqrt(P) F (power never exceeded), full_W_H H_kk full_F = I, "
+            "W/W_H and full_W/full_W_H Hermitian pairs, stream counts vs shapes, closed-form nulling.  Leakage monotonicity is observed "
+            "twice: repeated one-iteration solves ('fix' initialisation) and a sys.monitoring trace of every iteration inside one solve; "
+            "the two routes must agree.",
+            "MMSE may exceed P by 1e-6 relative (its own root-finder acceptance); MMSE Lagrange RuntimeError is tallied as a decline; MaxSINR/MMSE only with noise > 0; leakage increase allowed 1e-9 relative + 1e-12 of the initial unfiltered interference; the svd initialisation only for Nr = Nt.",
+            "property-relation monitor after every setter + black-box and sys.monitoring trace observation of the iteration cost",
+            "DESIGN.md §5 C10"),
 }
 
 PENDING_REASON = "check not built yet in this session (design in DESIGN.md §5); will be claimed once its monitors run clean on the unchanged tree"
